@@ -21,6 +21,20 @@ type textCase struct {
 	Text  text   `json:"text"`
 	Class string `json:"class,omitempty"`
 	Desc  string `json:"desc,omitempty"`
+	// Prime: a validation made immediately before (its result is ignored): a validator that
+	// remembers its last verdict without the language, or re-uses a scratch buffer, shows here.
+	Prime *primeCall `json:"prime,omitempty"`
+}
+
+type primeCall struct {
+	Lang string `json:"lang"`
+	Text text   `json:"text"`
+}
+
+func (p *primeCall) run() {
+	if p != nil {
+		implCheck(string(p.Text), implLang[mustLang(p.Lang)])
+	}
 }
 
 // verdict calls both validators and checks that they agree.
@@ -43,6 +57,7 @@ var c03TextCheck = register("C03", "c03.text", func(c *textCase) error {
 	l := mustLang(c.Lang)
 	s := string(c.Text)
 	sig := fmt.Sprintf("C03 accept lang=%s class=%s", l, c.Class)
+	c.Prime.run()
 	accepted, err := verdict(sig, s, l)
 	if err != nil {
 		return err
@@ -234,9 +249,14 @@ func TestC03_Mutated(t *testing.T) {
 			c = &textCase{Lang: l.Name(), Text: text(m.Text), Class: m.Class, Desc: m.Desc}
 			if rapid.IntRange(0, 3).Draw(rt, "other-lang") == 0 {
 				// the same text under another language must not be accepted either (unless valid there)
+				home := l
 				l = gen.Lang().Draw(rt, "lang2")
 				c.Lang = l.Name()
 				c.Class += "+other-lang"
+				if rapid.Bool().Draw(rt, "primed") {
+					c.Prime = &primeCall{Lang: home.Name(), Text: c.Text}
+					c.Class += "+primed"
+				}
 			}
 		}
 		c03RecordText(c, l)
